@@ -92,7 +92,7 @@ deriving DecidableEq, Repr
 inductive Res (α : Type) where
   | ok (a : α)
   | panic (site : String)
-deriving Repr
+deriving DecidableEq, Repr
 
 /-! ### helpers of path_rewriting.rs -/
 
